@@ -93,4 +93,39 @@ Valid ==
            h \in {0, 23}, mi \in {0, 59}, s \in {0, 59}, us \in {0, 999999, 123000}, p \in {0, 3, 6} }
   \cup { [kind |-> "range", term |-> RangeT(IntV(f), IntV(l), IntV(s)), fields |-> <<f, l, s>>] : f \in {0 - 5, 0, 7}, l \in {0 - 9, 0, 100}, s \in {1, 0 - 1, 3} }
   \cup { [kind |-> "range", term |-> RangeT(Big31, VInt(TRUE, <<1, 0, 0, 128>>), Big32), fields |-> <<0, 0, 0>>, big |-> TRUE] }
+\* ------------------------------------------------------------------ proplists and maps (erltf term.rs helpers)
+\* A proplist element is a pair {K, V} or a bare atom A (short for {A, true}); anything else is ignored by the helpers.
+\* proplist_to_map: pairs in list order, a later occurrence of a key replaces an earlier one; map_to_proplist: one pair per entry.
+\* Values are kept; nested proplists are only converted by to_map_recursive.
+PTrue == VAtom(<<116, 114, 117, 101>>)
+PKa == VAtom(<<97>>)
+PKb == VAtom(<<98>>)
+PFlag == VAtom(<<102, 108, 97, 103>>)
+PPair(k, v) == VTuple(<<k, v>>)
+PInner == MkList(<<PPair(PKb, SmallInt(2)), PFlag>>, VNil)                     \* a nested proplist [{b, 2}, flag]
+PVals == {SmallInt(1), VNil, PTrue, PInner}
+PElems == {PPair(k, v) : k \in {PKa, PKb, SmallInt(1)}, v \in PVals} \cup {PKa, PFlag}
+PJunk == {SmallInt(7), VTuple(<<PKa>>), VTuple(<<PKa, SmallInt(1), SmallInt(2)>>)}
+IsPair(e) == e.k = "tuple" /\ Len(e.e) = 2
+IsAtomV(e) == e.k = "atom"
+AsPair(e) == IF IsPair(e) THEN <<e.e[1], e.e[2]>> ELSE <<e, PTrue>>
+Keep(es) == SelectSeq(es, LAMBDA e : IsPair(e) \/ IsAtomV(e))
+\* last occurrence wins; result as a set of <<key, value>> (the order of a map's entries is not part of its value)
+ToMapSet(es) == LET ps == [i \in 1..Len(Keep(es)) |-> AsPair(Keep(es)[i])]
+                IN { ps[i] : i \in {j \in 1..Len(ps) : \A m \in (j + 1)..Len(ps) : ps[m][1] # ps[j][1]} }
+HasDupKeys(es) == LET ps == [i \in 1..Len(Keep(es)) |-> AsPair(Keep(es)[i])] IN \E i, j \in 1..Len(ps) : i # j /\ ps[i][1] = ps[j][1]
+Normalized(es) == [i \in 1..Len(Keep(es)) |-> PPair(AsPair(Keep(es)[i])[1], AsPair(Keep(es)[i])[2])]
+\* to_map_recursive on a value: a non-empty list all of whose elements are pairs / atoms becomes a map, recursively in the values
+RECURSIVE ToMapRec(_)
+ElemsOf(v) == IF v.k = "list" /\ v.t = VNil THEN v.e ELSE <<>>
+\* (to_map_recursive is stricter than proplist_to_map about what a proplist is: the key of a pair must be an atom or a binary)
+IsPropElem(e) == IsAtomV(e) \/ (IsPair(e) /\ e.e[1].k \in {"atom", "bin"})
+IsProplistV(v) == v.k = "list" /\ v.t = VNil /\ \A i \in 1..Len(v.e) : IsPropElem(v.e[i])
+ToMapRec(v) == IF IsProplistV(v) THEN [k |-> "mapset", kv |-> { <<p[1], ToMapRec(p[2])>> : p \in ToMapSet(v.e) }]
+               ELSE IF v.k = "list" /\ v.t = VNil THEN VList([i \in 1..Len(v.e) |-> ToMapRec(v.e[i])], VNil)     \* any other list: element by element
+               ELSE v
+PropLists == { es \in UNION { [1..n -> PElems \cup PJunk] : n \in 0..2 } : TRUE }
+             \cup { <<a, b, c>> : a \in {PPair(PKa, SmallInt(1)), PKa}, b \in {PPair(PKa, VNil), PPair(PKb, PInner), SmallInt(7)}, c \in {PFlag, PPair(PKb, PTrue), PPair(PKa, PInner)} }
+PropCases == { [list |-> MkList(es, VNil), well_formed |-> (\A i \in 1..Len(es) : IsPair(es[i]) \/ IsAtomV(es[i])), dup |-> HasDupKeys(es),
+                map |-> ToMapSet(es), normalized |-> MkList(Normalized(es), VNil), recursive |-> ToMapRec(MkList(es, VNil))] : es \in PropLists }
 =============================================================================
